@@ -466,6 +466,14 @@ class StateDiagram():
         
         # Get individual state diagrams and combine them into a compound state diagram
         state_diagrams = cls.get_state_diagrams(hamiltonian,ref_tree)
+        # A term with a vanishing prefactor contributes nothing and cannot be placed by the
+        # cut optimisation, where a zero coefficient means "not connected".
+        state_diagrams = [state_diagram
+                          for state_diagram, term in zip(state_diagrams, hamiltonian.terms)
+                          if term[0] != 0]
+        if len(state_diagrams) == 0:
+            # The zero operator: nothing to optimise
+            return cls.from_hamiltonian_base(hamiltonian, ref_tree)
         compound_state_diagram = cls.get_state_diagram_compound(state_diagrams)
         
         compound_state_diagram.SGE = method == TTNOFinder.SGE
